@@ -224,3 +224,6 @@ func Tag(s string) {}
 
 // ExpireDeadline lets the nearest pending deadline of a context expire (symbolic run only; used by library models).
 func ExpireDeadline(ctx interface{}) bool { return false }
+
+// WakeSleepers lets time pass: goroutines inside time.Sleep wake up (symbolic run, sleep_env mode); natively it waits.
+func WakeSleepers() { time.Sleep(300 * time.Millisecond) }
